@@ -23,6 +23,11 @@ EX = [101, 120]
 KEYS = {"none": [], "unrelated": [[107, 101, 121]], "shared": [[107], EX]}       # key. / k.ex.
 EDNS = {"off": ["none"], "on": ["edns", 0, 0, 1232, []], "opts": ["edns", 0, 32768, 4096, [[10, [7] * 8], [15, [1, 1, 1]]]]}
 PADS = [0, 16, 128, 468]
+# an OPT that already carries a PADDING option (a forwarder re-rendering a parsed padded query, or a caller-supplied
+# option): empty and non-empty
+EDNS_X = {"padopt0": ["edns", 0, 0, 1232, [[12, []]]], "padopt5": ["edns", 0, 0, 1232, [[12, [0] * 5], [10, [7] * 8]]]}
+BADTIME = {"terr": 18, "other": [0, 0, 95, 94, 16, 0]}        # TSIG error BADTIME with its 6-octet other data
+NOERR = {"terr": 0, "other": []}
 
 
 def tset(xs):
@@ -37,11 +42,20 @@ def gen_scripts(ctx, n, seed):
 
 
 def configs():
+    """(edns name, edns, pad, key name, key, tsig extras, pt)"""
     for en, ed in EDNS.items():
         for pad in (PADS if en != "off" else [0]):
             for kn, key in KEYS.items():
                 for pt in (False, True):
-                    yield en, ed, pad, kn, key, pt
+                    yield en, ed, pad, kn, key, NOERR, pt
+    for pt in (False, True):
+        for pad in (0, 16, 128):
+            # TSIG with an error and other data (BADTIME response)
+            yield "on", EDNS["on"], pad, "badtime", KEYS["shared"], BADTIME, pt
+            # OPT already holding a PADDING option
+            for en, ed in EDNS_X.items():
+                for kn in ("none", "shared"):
+                    yield en, ed, pad, kn, KEYS[kn], NOERR, pt
 
 
 def classify(tr, line, clause):
@@ -55,7 +69,7 @@ def classify(tr, line, clause):
         plain = sum(len(l) + 1 for l in cfg["key"]) + 1
         if tsig and tsig[0]["res"] == "ok":
             k = ev.index(tsig[0])
-            owner = tsig[0]["pos"] - ev[k - 1]["pos"] - (10 + 61)
+            owner = tsig[0]["pos"] - ev[k - 1]["pos"] - (10 + 61 + len(cfg.get("other", [])))
             if owner < plain:
                 return "F7:pad+tsig-owner-compressed:I8_PadMultiple"
     if clause == "TruncationPreferredButRaised" and cfg["pad"] > 0 and cfg["pt"] and edns:
@@ -90,13 +104,14 @@ def sweep_jobs():
     one where the PADDING option is EMPTY"""
     jobs = []
     for ln in range(1, 33):
-        sc = [{"op": "hdr", "id": 4660, "opcode": 0, "bits": 256, "rcode": 0, "origin": False, "edns": EDNS["on"]},
-              {"op": "q", "name": [[120] * ln, EX], "type": 1, "cls": 1}, {"op": "end"}]
-        for pad in (16, 32, 128):
-            for kn in ("shared", "unrelated"):
-                for pt in (False, True):
-                    jobs.append(("sweep.q%d.p%d.%s.pt%d" % (ln, pad, kn, pt), sc,
-                                 {"pad": pad, "key": KEYS[kn], "pt": pt, "max": 512}))
+        for en, ed in [("on", EDNS["on"])] + list(EDNS_X.items()):
+            sc = [{"op": "hdr", "id": 4660, "opcode": 0, "bits": 256, "rcode": 0, "origin": False, "edns": ed},
+                  {"op": "q", "name": [[120] * ln, EX], "type": 1, "cls": 1}, {"op": "end"}]
+            for pad in (16, 32, 128):
+                for kn, tx in (("shared", NOERR), ("unrelated", NOERR), ("shared", BADTIME)):
+                    for pt in (False, True):
+                        jobs.append(("sweep.q%d.%s.p%d.%s%d.pt%d" % (ln, en, pad, kn, tx["terr"], pt), sc,
+                                     {"pad": pad, "key": KEYS[kn], "pt": pt, "max": 512, **tx}))
     return jobs
 
 
@@ -108,20 +123,30 @@ def make_jobs(ctx, scripts, want, lo=520, hi=900):
         if used >= want:
             break
         base = dict(s[0])
-        plain = c08_limits.total_size(s, {"pad": 0, "key": [], "pt": False, "max": 65535})
+        plain = c08_limits.total_size(s, {"pad": 0, "key": [], "pt": False, "max": 65535, **NOERR})
         if not (lo <= plain <= hi):
             continue
         used += 1
-        for en, ed, pad, kn, key, pt in configs():
+        for en, ed, pad, kn, key, tx, pt in configs():
             h = dict(base)
             h["edns"] = ed
             sc = [h] + s[1:]
-            cfg0 = {"pad": pad, "key": key, "pt": pt, "max": 65535}
+            cfg0 = {"pad": pad, "key": key, "pt": pt, "max": 65535, **tx}
             total = c08_limits.total_size(sc, cfg0)
             for mx in range(512, max(total + 1, 513) + 1):
                 cfg = dict(cfg0)
                 cfg["max"] = mx
                 jobs.append(("m%d.%s.p%d.%s.pt%d.%d" % (i, en, pad, kn, pt, mx), sc, cfg))
+            if pt and total > 520:
+                # the SAME message object rendered twice: truncated first, then complete (TCP retry), and the reverse;
+                # also a limit at which only ADDITIONAL records are dropped
+                for small in sorted({512, (512 + total) // 2, total - 1}):
+                    for seq in ([(small, True), (65535, False)], [(65535, False), (small, True)],
+                                [(small, True), (small, True)]):
+                        cfg = dict(cfg0)
+                        cfg["seq"] = seq
+                        jobs.append(("m%d.%s.p%d.%s.seq%d.%s" % (i, en, pad, kn, small, "-".join(str(x[0]) for x in seq)),
+                                     sc, cfg))
     return jobs, used
 
 
@@ -137,7 +162,8 @@ def run(ctx):
     if ctx.replay_case:
         case = ctx.replay_case["case"]
         jobs = [("replay", case["script"], case["cfg"])]
-        traces = [c08_limits.run_job(jobs[0])]
+        r = c08_limits.run_job(jobs[0])
+        traces = r if isinstance(r, list) else [r]
     else:
         ctx.model("MC_RendererLimits", "MC_RendererLimits_quick.cfg" if quick else "MC_RendererLimits_thorough.cfg", workers=1)
         scripts = gen_scripts(ctx, 60 if quick else 400, ctx.seed + 1)
@@ -145,12 +171,23 @@ def run(ctx):
         jobs += sweep_jobs()
         ctx.extra["messages"] = used
         ctx.log("%d messages -> %d renderings" % (used, len(jobs)))
-        traces = ctx.pmap(c08_limits.run_job, jobs)
+        res = ctx.pmap(c08_limits.run_job, jobs)
+        traces = []
+        seqjobs = {}
+        for j, r in zip(jobs, res):
+            if isinstance(r, list):       # repeated renderings of one message object: one trace each
+                traces += r
+                for tr in r:
+                    seqjobs[tr["tid"]] = j
+            else:
+                traces.append(r)
         ctx.distinct = set(tr["tid"] for tr in traces if tr["ev"][-1].get("res") != "ok" or any(
             x.get("res") == "toobig" for x in tr["ev"]))
         for tr in traces[:1]:
             ctx.sample({"tid": tr["tid"], "cfg": tr["cfg"], "ev": [{k: v for k, v in e.items() if k not in ("table", "wire", "mac")} for e in tr["ev"][:6]]})
     jobmap = {j[0]: j for j in jobs}
+    if not ctx.replay_case:
+        jobmap.update(seqjobs)
     ctx.evaluations = len(traces)
     rejects = ctx.validate("Trace_RendererLimits", "Trace_RendererLimits.cfg", traces)
     for tr, line, clause in rejects:
@@ -170,7 +207,7 @@ def selftest(ctx):
                      "ttl": [0, 300], "form": "plain"}
     script = [{"op": "hdr", "id": 4660, "opcode": 0, "bits": 256, "rcode": 0, "origin": False, "edns": ["edns", 0, 0, 1232, []]},
               {"op": "q", "name": [[97], ex], "type": 1, "cls": 1}] + [txt(i) for i in range(6)] + [{"op": "end"}]
-    good = c08_limits.run_job(("good", script, {"pad": 0, "key": [[107, 101, 121]], "pt": True, "max": 600}))
+    good = c08_limits.run_job(("good", script, {"pad": 0, "key": [[107, 101, 121]], "pt": True, "max": 600, **NOERR}))
     muts = []
     for name, fn in [("pos+1", lambda t: t["ev"][4].__setitem__("pos", t["ev"][4]["pos"] + 1)),
                      ("rollback outcome", lambda t: [x for x in t["ev"] if x.get("res") == "toobig"][0].__setitem__("res", "ok")),
